@@ -73,6 +73,9 @@ let gen_block r (first : bool) (prev_rel : (z * z) * z) : sblock =
     else None in
   let samerel = (not first) && rint r 3 = 0 in
   let rel = if samerel then prev_rel else
+      (* shared catalogs live in the global tablespace with database OID 0 (1664/0/1260 pg_authid, 1664/0/1262 pg_database):
+         references to them count in the per-relation tally like any other (seeded change C17-8) *)
+      if rint r 3 = 0 then ((zi 1664, zi 0), zi (pick r [| 1260; 1262; 1213; 1214 |])) else
       ((zb (rdistinct r 32), (if rint r 4 = 0 then zi (1 + rint r 3) else zb (rdistinct r 32))),
        (if rint r 8 = 0 then zi 0 else if rint r 3 = 0 then zi (16384 + rint r 3) else zb (rdistinct r 32))) in
   let hasdata = rbool r in
